@@ -56,7 +56,8 @@ fn hash_ipv4_flow(ip_packet: &[u8], num_workers: usize) -> Option<usize> {
     }
 
     // IPv4 header is variable length (IHL field)
-    let ihl = (ip_packet[0] & 0x0F) as usize;
+    // A header length below the 20-byte minimum is read as 20, as the packet parser does
+    let ihl = ((ip_packet[0] & 0x0F) as usize).max(5);
     let ip_header_len = ihl.saturating_mul(4);
 
     if ip_packet.len() < ip_header_len.saturating_add(4) {
